@@ -4,10 +4,13 @@ import (
 	"encoding/json"
 	"flag"
 	"fmt"
+	"os"
 	"runtime"
+	"sort"
 	"strconv"
 	"strings"
 	"sync"
+	"sync/atomic"
 	"time"
 
 	"github.com/samaritan-proxy/samaritan/host"
@@ -40,6 +43,7 @@ type upStep struct {
 	Wakes string `json:"wakes"`
 	Next  string `json:"next"`
 	Obs   upObs  `json:"obs"`
+	Win   []string `json:"win"` // named windows of Upstream.tla that hold after the step
 }
 
 type upResult struct {
@@ -52,12 +56,16 @@ type upResult struct {
 	Extra     map[string]int    `json:"extra"`   // request -> number of additional replies
 	Compl     map[string]int    `json:"compl"`   // SetResponse calls per request
 	Lost      []string          `json:"lost"`    // requests never answered (connection open)
+	Closed    []string          `json:"closed,omitempty"` // requests whose downstream connection was closed by the proxy
 	Double    []string          `json:"double"`  // requests completed more than once
 	StopHung  bool              `json:"stopHung"`
 	StopperHung bool            `json:"stopperHung"`
 	Windows   []string          `json:"windows"` // named windows the behaviour passed through
 	Attempt   int               `json:"attempt"`
 	Err       string            `json:"err,omitempty"`
+	Notes     []string          `json:"notes,omitempty"`
+	Started   bool              `json:"started,omitempty"` // marker written before the behaviour runs
+	Skipped   bool              `json:"skipped,omitempty"` // not run: the shard had already met -stopafter violations
 }
 
 func goid() int64 {
@@ -79,11 +87,27 @@ type upTracker struct {
 	client   interface{}
 	roles    map[int64]string // goroutine id -> role
 	compl    map[string]int   // request name -> SetResponse calls
+	ptrs     map[string]map[string]int // request name -> request object -> SetResponse calls
+	suffix   string           // the keys of this replay are "{<name>}<suffix>": a late completion that belongs to an earlier replay never matches
 	reqNames map[string]string
 }
 
+var replaySeq int64
+
 func newUpTracker(target string) *upTracker {
-	return &upTracker{target: target, roles: map[int64]string{}, compl: map[string]int{}}
+	return &upTracker{target: target, roles: map[int64]string{}, compl: map[string]int{}, ptrs: map[string]map[string]int{},
+		suffix: "_" + strconv.FormatInt(atomic.AddInt64(&replaySeq, 1), 10)}
+}
+
+// keyOf is the Redis key of model request r in this replay: the hash tag keeps it in the slot of r.
+func (t *upTracker) keyOf(r string) string { return "{" + r + "}" + t.suffix }
+
+// nameOf maps a key of this replay back to the model request ("" for anything else).
+func (t *upTracker) nameOf(key string) string {
+	if strings.HasPrefix(key, "{") && strings.HasSuffix(key, "}"+t.suffix) {
+		return key[1 : len(key)-len(t.suffix)-1]
+	}
+	return ""
 }
 
 var upGateNames = map[string]string{
@@ -92,6 +116,7 @@ var upGateNames = map[string]string{
 	"client.Send.enqueued":     "client.Send.enqueued",
 	"client.loopWrite.select":  "client.loopWrite.select",
 	"client.loopWrite.got":     "client.loopWrite.got",
+	"client.loopWrite.asked":   "client.loopWrite.asked",
 	"client.loopWrite.handoff": "client.loopWrite.handoff",
 	"client.loopRead.decode":   "client.loopRead.decode",
 	"client.loopRead.decoded":  "client.loopRead.decoded",
@@ -112,9 +137,15 @@ func (t *upTracker) key(point string, a, b interface{}) string {
 	if point == "simpleRequest.SetResponse" {
 		d := predis.VerifDescribe(a)
 		if len(d.Args) >= 2 && strings.EqualFold(d.Args[0], "get") {
-			t.mu.Lock()
-			t.compl[d.Args[1]]++
-			t.mu.Unlock()
+			if name := t.nameOf(d.Args[1]); name != "" {
+				t.mu.Lock()
+				t.compl[name]++
+				if t.ptrs[name] == nil {
+					t.ptrs[name] = map[string]int{}
+				}
+				t.ptrs[name][d.Ptr]++
+				t.mu.Unlock()
+			}
 		}
 		return ""
 	}
@@ -139,9 +170,9 @@ func (t *upTracker) key(point string, a, b interface{}) string {
 	case strings.HasPrefix(point, "client.Send"):
 		rd := predis.VerifDescribe(b)
 		if len(rd.Args) >= 2 {
-			role = "S:" + rd.Args[1]
-		} else if len(rd.Args) == 1 {
-			role = "S:" + rd.Args[0]
+			if name := t.nameOf(rd.Args[1]); name != "" {
+				role = "S:" + name
+			}
 		}
 	case strings.HasPrefix(point, "client.loopWrite"):
 		role = "W"
@@ -169,6 +200,19 @@ func (t *upTracker) complOf(r string) int {
 	return t.compl[r]
 }
 
+// sameObjectTwice reports whether one request object of r went through SetResponse more than once (a double completion;
+// two objects for one command would be a duplicated request, which shows as a second reply).
+func (t *upTracker) sameObjectTwice(r string) bool {
+	t.mu.Lock()
+	defer t.mu.Unlock()
+	for _, n := range t.ptrs[r] {
+		if n > 1 {
+			return true
+		}
+	}
+	return false
+}
+
 func (t *upTracker) state() (predis.VerifClientState, bool) {
 	t.mu.Lock()
 	c := t.client
@@ -181,12 +225,17 @@ func (t *upTracker) state() (predis.VerifClientState, bool) {
 
 var upAllGates = []string{
 	"client.Send", "client.Send.checked", "client.Send.enqueued",
-	"client.loopWrite.select", "client.loopWrite.got", "client.loopWrite.handoff",
+	"client.loopWrite.select", "client.loopWrite.got", "client.loopWrite.asked", "client.loopWrite.handoff",
 	"client.loopRead.decode", "client.loopRead.decoded", "client.loopRead.paired",
 	"client.Start.readDone", "client.Start.quitClosed", "client.Start.drained",
 	"client.drain.select", "client.drain.answer",
 	"client.Stop", "client.Stop.quitClosed", "client.Stop.done",
 }
+
+// askKeys are the request names of the model that carry the asking mark: their slots belong to node B and are
+// being migrated to node A, the keys are not on B, so B answers -ASK <slot> <A> and B's reader goroutine hands
+// the request (asking set) to the backend connection under test; that goroutine is the model's sender.
+var askKeys = []string{"a1", "a2", "a3"}
 
 // upEnv is the environment for replays: a two master cluster where node A
 // owns every slot and node B (the only seed host) answers CLUSTER NODES.
@@ -205,6 +254,16 @@ func newUpEnv() (*upEnv, error) {
 		cl.SetOwner(s, 0)
 	}
 	cl.SetOwner(0, 1)
+	for _, k := range askKeys {
+		slot := simredis.Slot([]byte(k))
+		for _, other := range []string{"r1", "r2", "r3", "warm1", "warm2"} {
+			if simredis.Slot([]byte(other)) == slot {
+				return nil, fmt.Errorf("key %s shares slot %d with %s", k, slot, other)
+			}
+		}
+		cl.SetOwner(slot, 1)
+		cl.SetMigrating(slot, 1, 0)
+	}
 	return &upEnv{cl: cl, a: cl.Nodes[0], b: cl.Nodes[1]}, nil
 }
 
@@ -229,7 +288,11 @@ func (e *upEnv) replayOne(id int, steps []upStep, reqs []string) (res upResult) 
 	defer func() {
 		sc.ReleaseAll()
 		e.a.SetGate(false)
-		if !sut.StopWithin(px.P, 5*time.Second) {
+		d := 5 * time.Second
+		if res.StopperHung || len(res.Lost) > 0 {
+			d = time.Second // a client of this processor is already known to be stuck
+		}
+		if !sut.StopWithin(px.P, d) {
 			res.StopHung = true
 		}
 	}()
@@ -248,6 +311,9 @@ func (e *upEnv) replayOne(id int, steps []upStep, reqs []string) (res upResult) 
 		res.Err = fmt.Sprintf("warm1: %v %v", v, err)
 		return
 	}
+	// the writer and the reader are on their way back to their loop tops: let them pass the pause points once more
+	// before these are gated (a writer caught there before it has taken warm2 would never write it)
+	time.Sleep(3 * time.Millisecond)
 	sc.Gate("W|client.loopWrite.select", "R|client.loopRead.decode")
 	if v, err := c0.Do(3*time.Second, "get", "warm2"); err != nil || v.IsErr() {
 		res.Err = fmt.Sprintf("warm2: %v %v", v, err)
@@ -306,7 +372,7 @@ func (e *upEnv) replayOne(id int, steps []upStep, reqs []string) (res upResult) 
 				return
 			}
 			conns[st.R] = c
-			c.SendCmd("get", st.R)
+			c.SendCmd("get", tr.keyOf(st.R))
 		case "BackendReply":
 			if !e.a.WaitPending(1, stepTimeout) {
 				diverge(i, "backend has no command to answer")
@@ -381,28 +447,22 @@ func (e *upEnv) replayOne(id int, steps []upStep, reqs []string) (res upResult) 
 			diverge(i, fmt.Sprintf("after %s: %s", st.A, last))
 			break
 		}
-		// named windows (same predicates as Upstream.tla)
-		cs, _ := tr.state()
-		for _, r := range reqs {
-			if parkedAt["S:"+r] == "client.Send.checked" && cs.Quit {
-				windows["W_CheckedThenQuit"] = true
-				if cs.Done || parkedAt["R"] == "client.Start.drained" {
-					windows["W_EnqueueAfterDrain"] = true
-				}
-			}
-		}
-		if parkedAt["W"] == "client.loopWrite.handoff" && cs.Quit {
-			windows["W_WriterHandoffQuit"] = true
+		// the step was followed and the observable state equals the model's: the named windows of Upstream.tla
+		// that hold in the model state hold in the real client
+		for _, w := range st.Win {
+			windows[w] = true
 		}
 	}
 	res.Exact = res.DivergeAt < 0
 	for w := range windows {
 		res.Windows = append(res.Windows, w)
 	}
+	sort.Strings(res.Windows)
 
 	// let everything run to completion and judge by the property's own predicate
 	sc.ReleaseAll()
 	e.a.SetGate(false)
+	released := time.Now()
 	var wg sync.WaitGroup
 	var mu sync.Mutex
 	for r, c := range conns {
@@ -410,11 +470,20 @@ func (e *upEnv) replayOne(id int, steps []upStep, reqs []string) (res upResult) 
 		go func(r string, c *sut.Client) {
 			defer wg.Done()
 			v, err := c.Recv(4 * time.Second)
+			if err != nil && isTimeout(err) {
+				// no verdict on a short deadline: everything has been released, wait once more, generously
+				v, err = c.Recv(6 * time.Second)
+			}
 			mu.Lock()
 			defer mu.Unlock()
 			if err != nil {
 				res.Replies[r] = ""
-				res.Lost = append(res.Lost, r)
+				if isTimeout(err) {
+					res.Lost = append(res.Lost, r)
+				} else {
+					// the proxy closed the downstream connection: nothing is owed on a closed connection
+					res.Closed = append(res.Closed, r)
+				}
 				return
 			}
 			res.Replies[r] = v.String()
@@ -428,25 +497,58 @@ func (e *upEnv) replayOne(id int, steps []upStep, reqs []string) (res upResult) 
 	for _, r := range reqs {
 		n := tr.complOf(r)
 		res.Compl[r] = n
-		if n > 1 {
+		if tr.sameObjectTwice(r) {
 			res.Double = append(res.Double, r)
+		} else if n > 1 {
+			res.Notes = append(res.Notes, fmt.Sprintf("%d SetResponse calls on different request objects for %s", n, r))
 		}
 	}
 	if stopCalled {
 		select {
 		case <-stopDone:
-		case <-time.After(4 * time.Second):
-			res.StopperHung = true
+		default:
+			// the deadline counts from the release; a call that has already returned is never reported
+			select {
+			case <-stopDone:
+			case <-time.After(time.Until(released.Add(10*time.Second)) + 100*time.Millisecond):
+				res.StopperHung = true
+			}
 		}
 	}
 	return
 }
+
+// lineWriter writes one JSON record per line, unbuffered: a double completion panics in a goroutine of the system
+// under test and kills this process; the records written so far must be on disk then.
+type lineWriter struct{ f *os.File }
+
+func newLineWriter(path string) (*lineWriter, error) {
+	f, err := os.Create(path)
+	if err != nil {
+		return nil, err
+	}
+	return &lineWriter{f: f}, nil
+}
+
+func (w *lineWriter) Write(v interface{}) error {
+	b, err := json.Marshal(v)
+	if err != nil {
+		return err
+	}
+	_, err = w.f.Write(append(b, '\n'))
+	return err
+}
+
+func (w *lineWriter) Close() error { return w.f.Close() }
 
 func c02Replay(args []string) error {
 	fs := flag.NewFlagSet("c02-replay", flag.ContinueOnError)
 	in := fs.String("in", "", "behaviours (ndjson, one JSON array of steps per line)")
 	out := fs.String("out", "", "results (ndjson)")
 	attempts := fs.Int("attempts", 3, "attempts per behaviour until it is followed exactly")
+	shard := fs.Int("shard", 0, "replay only the behaviours whose index modulo -of equals this")
+	of := fs.Int("of", 1, "number of shards (one process each: the hook scheduler is process wide)")
+	stopAfter := fs.Int("stopafter", 0, "stop after this many behaviours with a violated predicate (0: never); a hung client costs a deadline per behaviour")
 	if err := fs.Parse(args); err != nil {
 		return err
 	}
@@ -456,18 +558,25 @@ func c02Replay(args []string) error {
 		return err
 	}
 	defer env.cl.Close()
-	w, err := cli.NewNDJSONWriter(*out)
+	w, err := newLineWriter(*out)
 	if err != nil {
 		return err
 	}
 	defer w.Close()
 	id := 0
+	bad := 0
 	err = cli.ReadNDJSON(*in, func(line []byte) error {
+		id++
+		if (id-1)%*of != *shard {
+			return nil
+		}
+		if *stopAfter > 0 && bad >= *stopAfter {
+			return w.Write(upResult{ID: id, Skipped: true, DivergeAt: -1})
+		}
 		var steps []upStep
 		if err := json.Unmarshal(line, &steps); err != nil {
 			return err
 		}
-		id++
 		seen := map[string]bool{}
 		var reqs []string
 		for _, s := range steps {
@@ -476,13 +585,20 @@ func c02Replay(args []string) error {
 				reqs = append(reqs, s.R)
 			}
 		}
+		// the record of the behaviour in hand is on disk before it runs: if the process dies the check knows which one it was
+		if err := w.Write(upResult{ID: id, Started: true, DivergeAt: -1}); err != nil {
+			return err
+		}
 		var res upResult
 		for a := 1; a <= *attempts; a++ {
 			res = env.replayOne(id, steps, reqs)
 			res.Attempt = a
-			if res.Exact || len(res.Lost) > 0 || len(res.Double) > 0 || res.Err != "" {
+			if res.Exact || len(res.Lost) > 0 || len(res.Double) > 0 || res.StopperHung {
 				break
 			}
+		}
+		if len(res.Lost) > 0 || len(res.Double) > 0 || res.StopperHung {
+			bad++
 		}
 		return w.Write(res)
 	})
